@@ -20,8 +20,12 @@ VARIABLES stage, c
 vars == <<stage, c>>
 Rows == 1..NR
 Cols == 1..NC
-Grid == IF GridName = "coarse" THEN {0, 2, 4} ELSE IF GridName = "full" THEN {0, 2, 4, 6} ELSE {0, 2, 3, 4, 6}
-Thr == 3      \* straddled by the grid; "tie" contains the threshold itself
+(* "fine": weights in 1/4096 that differ by 2.4e-4 around the threshold 0.30005 (and one heavy value): an assignment that is
+   better by a few 1e-4 is better *)
+Grid == IF GridName = "coarse" THEN {0, 2, 4} ELSE IF GridName = "full" THEN {0, 2, 4, 6}
+        ELSE IF GridName = "fine" THEN {0, 1228, 1229, 1231, 2456} ELSE {0, 2, 3, 4, 6}
+Thr == IF GridName = "fine" THEN 1229 ELSE 3      \* straddled by the grid; "tie" / "fine" contain the threshold itself
+Sc == IF GridName = "fine" THEN 4096 ELSE 16
 RECURSIVE GreedyVal(_, _, _, _)
 GreedyVal(W, thr, r, used) ==        \* rows in order, each takes its heaviest free gated column
   IF r > NR THEN 0
@@ -31,7 +35,7 @@ GreedyVal(W, thr, r, used) ==        \* rows in order, each takes its heaviest f
 Case(W) ==
   LET opt == Best(W, Rows, Cols, Thr)
       v == Value(W, Rows, CHOOSE a \in opt : TRUE, Thr)
-  IN [kind |-> "asg", w |-> W, thr |-> Thr, sc |-> 16, opt |-> opt, val |-> v,
+  IN [kind |-> "asg", w |-> W, thr |-> Thr, sc |-> Sc, opt |-> opt, val |-> v,
       gs |-> IF GreedyVal(W, Thr, 1, {}) < v THEN 1 ELSE 0]
 (* the specification's own facts: no optimum uses a pair below the threshold; the DP optimum agrees with Best *)
 Facts(W, cs) == /\ \A a \in cs.opt : \A r \in Rows : a[r] # 0 => W[r][a[r]] >= Thr          \* Assignment!GateRespected
